@@ -8,7 +8,8 @@ use embedded_cli::writer::Writer;
 use std::cell::RefCell;
 use std::rc::Rc;
 
-pub const PROMPTS: [&str; 4] = ["", "$ ", "λ→ ", "abc> "];
+// the last two have the same BYTE length and different widths (a redraw shortcut that compares lengths in bytes)
+pub const PROMPTS: [&str; 6] = ["", "$ ", "λ→ ", "abc> ", "» ", "#> "];
 
 #[derive(Debug, Clone, PartialEq, Eq)]
 pub enum SinkOp {
@@ -320,6 +321,16 @@ pub fn raw_handler<'a, W: embedded_io::Write<Error = E>, E: embedded_io::Error>(
             cli.writer().write_str("")?;
         }
         name => {
+            // the other ways to walk the arguments must agree with plain iteration (Iterator::nth / skip / last / count)
+            let all: Vec<String> = raw.args().args().map(|a| format!("{:?}", a)).collect();
+            for k in 0..all.len() + 1 {
+                let via_nth = raw.args().args().nth(k).map(|a| format!("{:?}", a));
+                let via_skip = raw.args().args().skip(k).next().map(|a| format!("{:?}", a));
+                assert_eq!(via_nth.as_ref(), all.get(k), "ArgsIter::nth({}) disagrees with repeated next()", k);
+                assert_eq!(via_skip.as_ref(), all.get(k), "ArgsIter skip({}) disagrees with repeated next()", k);
+            }
+            assert_eq!(raw.args().args().count(), all.len(), "ArgsIter::count disagrees with repeated next()");
+            assert_eq!(raw.args().args().last().map(|a| format!("{:?}", a)).as_ref(), all.last(), "ArgsIter::last disagrees with repeated next()");
             cli.writer().write_str(name)?;
             for a in raw.args().args() {
                 cli.writer().write_str(" ")?;
